@@ -34,6 +34,7 @@ def k1_while_inv(c):
             0 <= rank(k), rank(k) < ns, sel(starts, 1, rank(k)) == k)))),
         ("ends-len", ne == z3.If(ns >= 1, ns - 1, 0)),
         ("ends-val", forall(j, z3.Implies(z3.And(0 <= j, j < ne), sel(ends, 0, j) == sel(starts, 1, j + 1) - 1))),
+        ("starts-strictly-increasing", forall([j, k], z3.Implies(z3.And(0 <= j, j < k, k < ns), sel(starts, 1, j) < sel(starts, 1, k)))),
     ]
 
 
@@ -63,6 +64,13 @@ def sections_post(res):
         ("inner-end-inclusive", forall(j, z3.Implies(z3.And(0 <= j, j < n - 1),
                                                        sel(res, 2, j) == sel(res, 1, j + 1) - 1))),
         ("last-end", z3.Implies(n >= 1, sel(res, 2, n - 1) == LAST_END())),
+        ("titles-strictly-increasing", forall([j, k], z3.Implies(z3.And(0 <= j, j < k, k < n), sel(res, 1, j) < sel(res, 1, k)))),
+        ("every-body-lies-in-the-file", forall(j, z3.Implies(z3.And(0 <= j, j < n), z3.And(
+            sel(res, 1, j) <= sel(res, 2, j), sel(res, 2, j) < NLINES)))),
+        ("no-title-line-inside-a-body", forall([j, k], z3.Implies(
+            z3.And(0 <= j, j < n, sel(res, 1, j) < k, k <= sel(res, 2, j)), z3.Not(T(k))))),
+        ("every-body-ends-at-the-next-title-or-at-the-end-of-the-file", forall(j, z3.Implies(z3.And(0 <= j, j < n), z3.Or(
+            sel(res, 2, j) == NLINES - 1, T(sel(res, 2, j) + 1))))),
     ]
 
 
